@@ -35,8 +35,29 @@ def run(ctx, rep):
     inventory(ctx, rep)
 
 
+def is_ref_helper(ctx, d):
+    """a private helper of Builder that takes `&self` (not a chaining setter, not isi / connect_*): analysed in place"""
+    if not d.startswith("insim::builder::Builder::") or "{closure" in d:
+        return False
+    nm = d.split("::")[-1]
+    if nm in NOT_SETTERS or nm == "isi":
+        return False
+    raw = ctx.mir.bodies.get(d)
+    if raw is None or raw.get("coroutine") or raw.get("argc", 0) < 1:
+        return False
+    return raw["locals"][1].get("ty", "").startswith("&") and raw["locals"][1]["ty"].endswith("builder::Builder")
+
+
+def bbody(ctx, name):
+    from mirq import inline_calls
+    b = ctx.mir.body(name)
+    if b is None:
+        return None
+    return inline_calls(b, lambda d: is_ref_helper(ctx, d), depth=3)
+
+
 def isi_provenance(ctx, rep):
-    b = ctx.mir.body("insim::builder::Builder::isi")
+    b = bbody(ctx, "insim::builder::Builder::isi")
     if b is None:
         rep.fail("R18.2", "found", "Builder::isi not found")
         return
@@ -72,34 +93,54 @@ def isi_provenance(ctx, rep):
                     vo = d.origin(s2["rv"]["ops"][i])
                     okd = vo[0] == "const" and vo[1] == ver
     rep.check("R18.2", "isi.version", okv and okd and ver == 9, "ISI.version must be the library's VERSION (9) through Isi::default()", b.loc(st["line"]), sample={"VERSION": ver})
-    # udpport
-    ou = b.origin(fields["udpport"])
+    # udpport: Builder::isi as a decision table, evaluated for every protocol x {no local address, a local address}
+    import tabeval
     proto = ctx.mir.enums.get("insim::builder::Proto")
-    udp_idx = [v["idx"] for v in proto["variants"] if v["name"] == "Udp"][0] if proto else None
-    oku = False
-    detail = "udpport origin %s" % (ou,)
-    if ou[0] == "phi" and udp_idx is not None:
-        defs = [d for d in b.defs().get(ou[1], []) if d[0] in ("stmt", "call")]
-        sws = b.switch_on(lambda o: o[0] == "discr" and strip_refs(o[1])[0] == "field" and strip_refs(o[1])[3] == "proto")
-        if len(defs) == 2 and len(sws) == 1:
-            sbb, targets, otherwise, _o = sws[0]
-            udp_t = targets.get(udp_idx)
-            port_defs, zero_defs = [], []
-            for dd in defs:
-                if dd[0] == "call":
-                    oo = ("call", callee(dd[2])[0], None, [b.origin(a) for a in dd[2]["args"]], dd[1], [])
-                    blk = dd[1]
-                else:
-                    oo = b.origin(dd[3]["rv"].get("x", {})) if dd[3]["rv"]["k"] == "use" else ("rv",)
-                    blk = dd[1]
-                if "udp_local_address" in origin_fields(oo) and _calls_port(ctx, oo):
-                    port_defs.append(blk)
-                elif oo[0] == "const" and oo[1] == 0:
-                    zero_defs.append(blk)
-            oku = len(port_defs) == 1 and len(zero_defs) == 1 and udp_t is not None and port_defs[0] not in b.reach(0, avoid_edges={(sbb, udp_t)}) \
-                and zero_defs[0] not in b.reach(udp_t, avoid_blocks=set())
-            detail = "port defs %s zero defs %s" % (port_defs, zero_defs)
-    rep.check("R18.2", "isi.udpport", oku, "ISI.udpport must be udp_local_address.port() under Proto::Udp and 0 otherwise (%s)" % detail, b.loc(st["line"]))
+    rows = b.decision_rows()
+    fidx = st["rv"]["fields"].index("udpport")
+    cur = {}
+
+    def leaf(o, model):
+        x = strip_refs(o)
+        if o[0] == "discr":
+            y = strip_refs(o[1])
+            if y[0] == "field" and y[3] == "proto" and strip_refs(y[1]) == ("arg", 1):
+                return cur["proto"]
+        if x[0] == "field" and x[3] == "udp_local_address" and strip_refs(x[1]) == ("arg", 1):
+            return ("opt", cur["port"] is not None, ("addr", cur["port"]))
+        return None
+
+    def call(d, rd, args, model):
+        if d.endswith("SocketAddr::port") or (rd or "").endswith("SocketAddr::port"):
+            v = model.ev.ev(args[0])
+            if isinstance(v, tuple) and v[0] == "addr":
+                return v[1]
+        return None
+    model = tabeval.Model(ctx, b, None, local_prefix="insim::builder::", extra_leaf=leaf, extra_call=call)
+    bad = None
+    n_eval = 0
+    for v in (proto["variants"] if proto else []):
+        for port in (None, 29999, 1):
+            cur["proto"], cur["port"] = v["idx"], port
+            model.ev.reset()
+            want = port if (v["name"] == "Udp" and port is not None) else 0
+            try:
+                ms = model.ev.matching_rows(rows)
+                got = set()
+                for r in ms:
+                    if r[1][1] != "Isi" or len(r[1][3]) <= fidx:
+                        raise tabeval.Unknown("result %s" % (r[1][1],))
+                    got.add(model.ev.ev(r[1][3][fidx]))
+            except (tabeval.Unknown, tabeval.Panic) as e:
+                bad = "Proto::%s, local address %s: not evaluable (%s)" % (v["name"], port, e)
+                break
+            n_eval += 1
+            if got != {want}:
+                bad = bad or "Proto::%s with %s: ISI.udpport is %s, expected %d" % (v["name"], "local port %d" % port if port is not None else "no local address", sorted(got, key=str), want)
+        if bad and "not evaluable" in bad:
+            break
+    rep.check("R18.2", "isi.udpport", bad is None and n_eval > 0, "ISI.udpport must be udp_local_address.port() under Proto::Udp and 0 otherwise (%s)" % bad, b.loc(st["line"]),
+              sample={"evaluated": n_eval})
     rep.floor("R18.2", 8)
 
 
@@ -173,6 +214,8 @@ def setters(ctx, rep):
             continue
         meth = m.group(1)
         b = ctx.mir.body(name)
+        if b.argc < 1 or str(b.locals[1].get("ty", "")) != "insim::builder::Builder":
+            continue          # `&self` helpers (e.g. a port computation) are not setters
         rep.fn(name)
         assigned = []
         for bl in b.blocks:
@@ -225,7 +268,7 @@ def field_writers(ctx, rep):
             continue
         meth = m.group(1)
         b = ctx.mir.body(name)
-        if b.argc < 1 or not str(b.locals[1].get("ty", "")).endswith("builder::Builder"):
+        if b.argc < 1 or str(b.locals[1].get("ty", "")) != "insim::builder::Builder":
             continue          # not a by-value chaining method
         rep.fn(name)
         allowed = WRITES.get(meth, {meth if not meth.startswith("isi_flag_") else "isi_flags"})
@@ -274,7 +317,7 @@ def connect(ctx, rep, flag_only=False):
     for impl, name, framed in CONNECT:
         if impl not in net.impls_present(ctx):
             continue
-        b = ctx.mir.body(name)
+        b = bbody(ctx, name)
         if b is None:
             rep.fail("R18.4", "%s:found" % impl, "%s not found" % name)
             continue
